@@ -662,4 +662,46 @@ Section ScanProofs.
     split; [exact Hl|]. split; [|apply Hnn, Hp].
     intros E. apply Hiff in E. exact (Hnn p Hp E).
   Qed.
+
+  (* ---------------------------------------------------------------- *)
+  (* the threaded scan is the scan                                     *)
+  (* ---------------------------------------------------------------- *)
+
+  Lemma chunk_scan_from_token : forall fuel rest pre k t o0,
+    v = pre ++ k :: rest -> serialize (o, k) = Ok t ->
+    scan fuel o0 lim (Some t) = chunk_scan env_ser max default fuel o lim rest.
+  Proof using env_round_trip env_bytes coll_sorted lim_nonzero cfg_default cfg_max.
+    induction fuel as [|f IH]; intros rest pre k t o0 Hv Hs; [reflexivity|].
+    cbn [Pagination.scan Pagination.request Pagination.chunk_scan].
+    rewrite (token_round_trip sel env_ser env_de env_round_trip env_bytes _ _ Hs).
+    cbn [Pagination.handler]. unfold page_items. fold v. fold eff.
+    rewrite (filter_after_split o v pre k rest v_sorted Hv).
+    pose proof (page_step rest) as Hp.
+    pose proof (take_drop rest eff) as Htd.
+    destruct (results_page (takeN eff rest) o (fun k0 o1 => (o1, k0))) as [p|e]; [|reflexivity].
+    destruct Hp as (Hi & Hok & Hn).
+    destruct (next_page p) as [t'|]; [|reflexivity].
+    destruct Hn as (its' & k' & Hits & Hs').
+    f_equal. apply (IH (dropN eff rest) (pre ++ k :: its') k' t' o0); [|exact Hs'].
+    rewrite Hv. rewrite <- app_assoc. cbn [app]. f_equal. f_equal.
+    rewrite <- Htd at 1. rewrite Hits, <- app_assoc. reflexivity.
+  Qed.
+
+  Theorem fast_scan_is_scan : forall fuel,
+    full_scan fuel o lim = fast_scan env_ser max default coll fuel o lim.
+  Proof using env_round_trip env_bytes coll_sorted lim_nonzero cfg_default cfg_max.
+    intros [|f]; [reflexivity|]. unfold Pagination.full_scan, Pagination.fast_scan.
+    cbn [Pagination.scan Pagination.request Pagination.handler Pagination.chunk_scan].
+    unfold page_items. fold v. fold eff.
+    replace (filter (after o None) v) with v
+      by (symmetry; apply filter_all; reflexivity).
+    pose proof (page_step v) as Hp.
+    pose proof (take_drop v eff) as Htd.
+    destruct (results_page (takeN eff v) o (fun k0 o1 => (o1, k0))) as [p|e]; [|reflexivity].
+    destruct Hp as (Hi & Hok & Hn).
+    destruct (next_page p) as [t'|]; [|reflexivity].
+    destruct Hn as (its' & k' & Hits & Hs').
+    f_equal. apply (chunk_scan_from_token f (dropN eff v) its' k' t' o); [|exact Hs'].
+    rewrite <- Htd at 1. rewrite Hits, <- app_assoc. reflexivity.
+  Qed.
 End ScanProofs.
